@@ -210,8 +210,30 @@ class Session:
                 self.S = [c for c in range(self.nchains) if all(r in names for r in self.chain_res[c])]
             elif k == "set_used_chains":
                 idx = sorted(set(i % self.nchains for i in op["idx"]))
-                amp.set_used_chains(idx)
-                self.S = idx
+                form = sum(op["idx"]) % 4
+                if form == 1:
+                    amp.set_used_chains(tuple(idx))
+                    self.S = idx
+                elif form == 2:
+                    # a lazy iterable whose predicate reads the CURRENT selection while it is consumed
+                    cur = list(self.S)
+                    amp.set_used_chains(filter(lambda kk: kk in dg.chains_idx, idx))
+                    self.S = [i for i in idx if i in cur]
+                elif form == 3:
+                    # an iterable that fails half-way: the call raises and must leave the selection as it was
+                    def bad():
+                        yield idx[0]
+                        raise ValueError("bad chain index source")
+
+                    try:
+                        amp.set_used_chains(bad())
+                        self.log.count("probe.failing_iterable_accepted")
+                        self.S = [idx[0]]
+                    except ValueError:
+                        self.log.count("fault.selection_argument_raised")
+                else:
+                    amp.set_used_chains(idx)
+                    self.S = idx
             elif k == "add_used_chains":
                 idx = sorted(set(i % self.nchains for i in op["idx"]))
                 dg.add_used_chains(idx)
